@@ -254,6 +254,27 @@ func Menu() []Slot {
 	}
 }
 
+// TagTableSlots is a second, small product aimed at the shape of the search
+// token table rather than at geometry: nodes n1, n2 and n8 each carry no tag
+// or one of two values of one of four searchable keys chosen to sort at the
+// start, in the middle and at the end of the table (so every key is met as
+// the first, an inner and the last run of tokens, with one and with two
+// distinct values, shared or not between nodes).
+func TagTableSlots() []Slot {
+	keys := []string{"amenity", "shop", "waterway", "wikidata"}
+	var out []Slot
+	for _, n := range []int{1, 2, 8} {
+		s := Slot{Name: fmt.Sprintf("n%d", n), Variants: []Variant{node(n, nil)}}
+		for _, k := range keys {
+			for _, v := range []string{"a", "b"} {
+				s.Variants = append(s.Variants, node(n, tags(k, v)))
+			}
+		}
+		out = append(out, s)
+	}
+	return out
+}
+
 // fixedNodes are present in every input (untagged).
 var fixedNodes = []int{3, 4, 5, 6, 7, 9, 10, 11}
 
